@@ -6,9 +6,10 @@ from vf.runner import UnitSpec
 CLAIMS = ['host', 'range', 'align']
 
 
-def shard_units(tier, claims, mode=None, tag='', arch=7, sec=True, **kw):
+def shard_units(tier, claims, mode=None, tag='', arch=7, sec=True, seed=0, **kw):
     if tier == 'quick':
-        sh = sweep.arm_shards()[::6] + sweep.t16_shards() + sweep.t32_shards()[::8]
+        sh = sweep.quick_sample(sweep.arm_shards(), 24, seed) + sweep.quick_sample(sweep.t16_shards(), 24, seed) + \
+            sweep.quick_sample(sweep.t32_shards(), 24, seed)
     else:
         sh = sweep.arm_shards() + sweep.t16_shards() + sweep.t32_shards()
     us = []
@@ -17,15 +18,15 @@ def shard_units(tier, claims, mode=None, tag='', arch=7, sec=True, **kw):
         a = dict(iset=iset, pins=[list(p) for p in pins], claims=list(claims), mode=mode, arch=arch, sec=sec)
         a.update(kw)
         us.append(UnitSpec('sweep/%s%s' % (name, tag), 'vf.sweep', 'mk_sweep', a, max_seconds=3000, max_paths=400000,
-                           weight=5 if 'sym' in name or '/b' in name else 1))
+                           weight=5 if 'list' in name or '/b' in name else 1))
     return us
 
 
 def units(tier, seed=0):
-    us = shard_units(tier, CLAIMS)
+    us = shard_units(tier, CLAIMS, seed=seed)
     if tier == 'thorough':
-        us += shard_units('quick', CLAIMS, tag='/v6', arch=6)
-        us += shard_units('quick', CLAIMS, tag='/nosec', sec=False)
+        us += shard_units('quick', CLAIMS, tag='/v6', arch=6, seed=seed)
+        us += shard_units('quick', CLAIMS, tag='/nosec', sec=False, seed=seed)
     return us
 
 
@@ -39,8 +40,8 @@ META = {
                    'hook; no other exception type escapes; all registers stay in [0,2^32); the PC stays aligned.',
     'bounds': ['single step from an arbitrary valid state (multi-instruction programs follow by induction with the '
                'range/alignment invariants re-established after every step)', 'register lists of LDM/STM are windowed: '
-               'one byte of the list symbolic, the other byte from two patterns (0x00, 0xA5)',
-               'quick: every 6th ARM shard, every Thumb-16 shard, every 8th Thumb-32 shard; thorough: all shards '
+               '4 list bits symbolic (r0-r3 or r12-r15 incl. SP/LR/PC/base-in-list), the other 12 zero',
+               'quick: 24 ARM + 24 Thumb-16 + 24 Thumb-32 shards spread over the space (offset rotated by VERIF_SEED); thorough: all shards '
                '(+ arch 6 and no-security samples)', 'MPU off'],
     'outside': ['MPU/MMU enabled stepping (translation totality is exercised by C14/C15)',
                 'register lists with both bytes simultaneously symbolic'],
